@@ -10,4 +10,4 @@ TRUSTED_K = ['rustc + Kani codegen', 'CBMC', 'the byte-wise / limb-wise referenc
 
 def build(tier):
     from . import evm_guards
-    return evm_guards.build_guards(tier) + [o for o in evm_guards.build_calls(tier) if 'Delegate' not in o.name]
+    return evm_guards.build_guards(tier) + [o for o in evm_guards.build_calls(tier) if 'Delegate' not in o.name] + evm_guards.build_jumps(tier)
